@@ -121,6 +121,56 @@ fn grid_t<F: PrimeField>(rec: &mut Rec, fname: &str, lambdas: &[usize], kmax: us
     }
 }
 
+
+/// `calculate_t` for the four fields in EVERY order within one process, on parameters where the field size matters
+/// (lambda + log2 n close to log2 |F| of the 253-bit fields, far below it for the 377-bit field): a result must be a
+/// function of (field, lambda, distance, n) alone, not of which field asked first.  (The grid above spreads the fields
+/// over worker processes, so a value remembered across calls would never be seen there.)  Every order uses codeword
+/// lengths of its own, so no two orders share a key.
+pub fn t_field_orders(rec: &mut Rec) {
+    let qs: Vec<BigUint> = vec![modulus_of::<Fr381>(), modulus_of::<Fr377>(), modulus_of::<FrJ>(), modulus_of::<ark_bls12_377::Fq>()];
+    let names = ["bls12-381-Fr", "bls12-377-Fr", "jubjub-Fr", "bls12-377-Fq"];
+    let call = |f: usize, lambda: usize, dist: (usize, usize), n: usize| -> Option<usize> {
+        let r = match f {
+            0 => catch(|| verif_calculate_t::<Fr381>(lambda, dist, n)),
+            1 => catch(|| verif_calculate_t::<Fr377>(lambda, dist, n)),
+            2 => catch(|| verif_calculate_t::<FrJ>(lambda, dist, n)),
+            _ => catch(|| verif_calculate_t::<ark_bls12_377::Fq>(lambda, dist, n)),
+        };
+        r.ok().and_then(|x| x.ok())
+    };
+    let perms = crate::util::permutations(4);
+    rec.scope(format!("calculate_t: {} orders of the four fields in one process x lambda {{128, 236..246}} x distances {{1/2, 3/4}} x 3 codeword lengths per order", perms.len()));
+    for (pi, perm) in perms.iter().enumerate() {
+        let id = format!("t/field-order/{:?}", perm).replace(' ', "");
+        if !rec.take(&id) {
+            continue;
+        }
+        rec.dim("field", "all-orders");
+        let mut bad: Option<String> = None;
+        for lambda in [128usize, 236, 238, 240, 241, 242, 243, 244, 246] {
+            for dist in [(1usize, 2usize), (3, 4)] {
+                for base in [1usize << 8, 1 << 10, 1 << 12] {
+                    let n = base + 1 + pi;
+                    for f in perm.iter().copied() {
+                        rec.count_points(1);
+                        rec.op(1);
+                        let got = call(f, lambda, dist, n);
+                        let want = ref_t(&qs[f], lambda, dist, n);
+                        if got != want && bad.is_none() {
+                            bad = Some(format!("order {:?}: {} asked for lambda={}, d={}/{}, n={}: calculate_t gives {:?}, the exact minimum is {:?}", perm.iter().map(|i| names[*i]).collect::<Vec<_>>(), names[f], lambda, dist.0, dist.1, n, got, want));
+                        }
+                    }
+                }
+            }
+        }
+        rec.class(if bad.is_none() { "t-exact" } else { "t-order-dependent" });
+        if let Some(b) = bad {
+            viol(rec, "calculate_t/depends-on-call-history", &id, b);
+        }
+    }
+}
+
 /// The code's relative distance from the parameters themselves (mirror structs), not from the
 /// library's `distance()`: Ligero (rho_inv - 1)/rho_inv, Brakedown beta / rho_inv.
 fn ref_distance<S: Sch>(ck: &CK<S>) -> (usize, usize) {
@@ -532,6 +582,7 @@ pub fn run(rec: &mut Rec) {
     grid_t::<Fr377>(rec, "bls12-377-Fr", lambdas, 40);
     grid_t::<FrJ>(rec, "jubjub-Fr", lambdas, 40);
     grid_t::<ark_bls12_377::Fq>(rec, "bls12-377-Fq", lambdas, 40);
+    t_field_orders(rec);
     proofs::<SLig>(rec);
     proofs::<SMll>(rec);
     proofs::<SBrk>(rec);
